@@ -500,7 +500,7 @@ class CFG:
         new_variables_d = {}
         new_vars = set()
         for variable in self._variables:
-            temp = Variable(variable.value + SUBS_SUFFIX + str(idx))
+            temp = Variable(str(variable.value) + SUBS_SUFFIX + str(idx))
             new_variables_d[variable] = temp
             new_vars.add(temp)
             idx += 1
@@ -510,7 +510,7 @@ class CFG:
         for ter, cfg in substitution.items():
             new_variables_d_local = {}
             for variable in cfg.variables:
-                temp = Variable(variable.value + SUBS_SUFFIX + str(idx))
+                temp = Variable(str(variable.value) + SUBS_SUFFIX + str(idx))
                 new_variables_d_local[variable] = temp
                 new_vars.add(temp)
                 idx += 1
